@@ -34,3 +34,13 @@ func recordRunaway(ev *CheckEv) {
 		time.Sleep(2 * time.Second)
 	}
 }
+
+func init() {
+	// self-test only: VERIF_V2_LIMIT=1us makes every direct weighted-graph Check run into the limit, which
+	// exercises the KF_V2Runaway path end to end (recorded input, TLC class, KNOWN-FINDING line)
+	if v := os.Getenv("VERIF_V2_LIMIT"); v != "" {
+		if d, err := time.ParseDuration(v); err == nil {
+			V2RunawayLimit = d
+		}
+	}
+}
